@@ -37,6 +37,9 @@ KINDS = {
     "gap": [7, 40, 3, 11, 0, 25, 19],
     "str": ["a", "b", "c", "d", "e", "f", "g"],
     "mstr": ["aa", "b", "node c", "dd", "e5", "ff", "g"],
+    "float": [0.0, 1.0, 2.0, 3.0, 4.0, 5.0, 6.0],  # integral floats: equal to ints as dict keys, but not instances of int
+    "fmix": [0, 1, 2.0, 3, 4.0, 5.5, 6],
+    "npint": [np.int64(i) for i in (0, 1, 2, 3, 4, 5, 6)],
 }
 
 
